@@ -1,5 +1,6 @@
 import TcVerif.Props.C05
 import TcVerif.Props.C03
+import TcVerif.Proofs.SrcStatus
 /-!
 # C20 — Expiration purges exactly the long-deleted tasks, everywhere
 
@@ -118,5 +119,10 @@ theorem C20_expire_exact (now : Int) (st : RState) (order : List Nat) (olds : Na
 theorem C20_expiry_propagates (S : DB) (u : Nat) (k : String) (v : Option String) (ts : Int) :
     merged S (.delete u) (.update u k v ts) u = none ∧ merged S (.update u k v ts) (.delete u) u = none :=
   C03_delete_beats_update S u k v ts
+
+/-- "status is deleted" in the model is a comparison of the stored string with `deleted`; that is what
+    the source's `Status::from_taskmap` (translated on every run) makes of it -/
+theorem C20_source_status (s : String) : Src.statusFromTaskmap s = .deleted ↔ s = "deleted" :=
+  (src_status_iff s).2.2.1
 
 end Tc
